@@ -23,6 +23,7 @@ FLAVOURS = {
     'threshold': "\nADDITIONAL REQUIREMENT for this round: each of your two changes must depend on a *size, count or depth threshold* (for instance: more than N facts in a predicate, a term deeper or longer than N, more than N answers, the N-th call of something, N generators alive at once, N engines, N loads/registrations/clears, a name longer than N characters) with N somewhere between 5 and 200: below the threshold the behaviour must be exactly right, so that small examples never show it. Say in notes.md what the threshold is.\n",
     'edge': "\nADDITIONAL REQUIREMENT for this round: each of your two changes must only manifest for an *unusual but legal kind of value or shape*, never for the everyday ones: for instance Python constants used as terms (ints, floats, bools, None, strings, including 0, '' and values equal to each other like 1 and True or 1 and 1.0), the empty list, arity-0 predicates and atoms used as goals, a predicate that has both facts and rules, names with unusual characters or that look like something else ('[]', '.', names starting with an underscore or a capital letter in quotes), variables that occur twice in one term, terms that contain themselves partially (shared subterms), open lists, queries with no arguments, programs with no clauses or only facts, very long names. Everyday values (atoms a, b, small lists, arity 1-3) must behave exactly right. Say in notes.md which kind of value is needed.\n",
     'history': "\nADDITIONAL REQUIREMENT for this round: each of your two changes must only manifest after a specific *history of at least three engine operations in a particular order* on the same engine (for instance: load, clear, load again; assert, retract the last fact, assert again; register, load with overwrite, register again; query abandoned, then the same query again, then a third one; compile program A, then B, then A again) - the same operations in another order, or any two of them, must behave exactly right. Say in notes.md which history is needed.\n",
+    'cooperating': "\nADDITIONAL REQUIREMENT for this round: each of your two changes must consist of TWO cooperating edits at two different sites (two functions, or the compiler and the engine, or a constructor and a method): each edit applied alone must leave the behaviour exactly right (say so in notes.md and check it), and only the two together break the property - for instance a cache added in one place and an invalidation forgotten in another, a field that one site starts to share and another site mutates, a fast path in one function that relies on an invariant another function no longer keeps. patch.diff contains both edits.\n",
     'interaction': "\nADDITIONAL REQUIREMENT for this round: each of your two changes must only manifest when TWO different features of the public API or of the Prolog subset are used together in one history (for instance: retract inside findall, a registered function that itself runs a query, clear() while a generator is suspended, evaluate_bounded over a query that asserts, call/N on a dynamic fact, two engines sharing terms, compiling while another engine runs); each feature on its own must behave exactly right. Say in notes.md which two.\n",
 }
 extra = ""
